@@ -42,6 +42,7 @@ const (
 	rRLock
 	rWait
 	rOnce
+	rSelect
 )
 
 // task states
@@ -73,6 +74,7 @@ const (
 	OpWait
 	OpOnce
 	OpExit
+	OpSelect
 )
 
 type task struct {
@@ -85,6 +87,9 @@ type task struct {
 	parent     int32
 	createSite int32
 	demote     int32
+	sel        [4]int32 // rSelect: the channels of the receive cases
+	nsel       int32
+	selChoice  int32
 }
 
 type prim struct {
@@ -334,8 +339,26 @@ func optionEnabled(t *task) bool {
 		return s.prims[t.prim].counter <= 0
 	case rOnce:
 		return s.prims[t.prim].once != 1
+	case rSelect:
+		for i := int32(0); i < t.nsel; i++ {
+			if selReady(t.sel[i]) {
+				return true
+			}
+		}
+		return false
 	}
 	return false
+}
+
+// selReady: a receive case of a select is ready when its (buffered) channel holds a value or is closed.
+//
+//go:norace
+func selReady(pr int32) bool {
+	if pr < 0 {
+		return false
+	}
+	p := &s.prims[pr]
+	return p.count > 0 || p.closed
 }
 
 //go:norace
@@ -538,6 +561,25 @@ func grant(o option) {
 		op = OpOnce
 		if s.prims[a.prim].once == 0 {
 			s.prims[a.prim].once = 1
+		}
+	case rSelect:
+		op = OpSelect
+		// which ready case is taken is a decision of its own
+		var ready [4]int32
+		n := int32(0)
+		for i := int32(0); i < a.nsel; i++ {
+			if selReady(a.sel[i]) {
+				ready[n] = i
+				n++
+			}
+		}
+		c := int32(0)
+		if n > 1 {
+			c = int32(nextTape() % uint32(n))
+		}
+		a.selChoice = ready[c]
+		if p := &s.prims[a.sel[a.selChoice]]; p.count > 0 {
+			p.count--
 		}
 	}
 	logEvent(Event{a.id, -1, a.site, op})
